@@ -66,8 +66,23 @@ func init() {
 						if b, ok := m.(*ast.BranchStmt); ok && b.Tok == token.BREAK {
 							firstHit = true
 						}
-						if _, ok := m.(*ast.ReturnStmt); ok {
-							firstHit = true
+						if ret, ok := m.(*ast.ReturnStmt); ok {
+							// a successful return (no error carried) ends the selection at this file; an
+							// error return does not select anything
+							success := true
+							if n := len(ret.Results); n > 0 {
+								if tv, ok := info.Types[ret.Results[n-1]]; ok && isErrorType(tv.Type) && !tv.IsNil() {
+									success = false
+								}
+								if id, ok := ast.Unparen(ret.Results[n-1]).(*ast.Ident); ok {
+									if v, ok := info.Uses[id].(*types.Var); ok && isErrorType(v.Type()) {
+										success = false
+									}
+								}
+							}
+							if success {
+								firstHit = true
+							}
 						}
 						return true
 					})
